@@ -11,6 +11,7 @@ mod c04;
 mod c06;
 mod c07;
 mod c08;
+mod c09;
 mod c10;
 mod c10r;
 mod c11;
@@ -39,6 +40,7 @@ fn rerun(w: &Value) -> Option<Outcome> {
         "c12_header" => Some(c12::run_header(w["input"]["text"].as_str()?)),
         "c12_yacc" => Some(c12::run_yacc(w["input"]["text"].as_str()?)),
         "c12_lex" => Some(c12::run_lex(w["input"]["text"].as_str()?)),
+        "c09_ids" => Some(c09::run(w["input"]["spec"].as_str()?, &w["input"]["map"].as_array()?.iter().map(|x| (x[0].as_str().unwrap_or("").to_string(), x[1].as_u64().unwrap_or(0) as u32)).collect::<Vec<_>>())),
         "c10_render" => Some(c10r::run(w["input"]["seed"].as_u64()?, w["input"]["layout"].as_u64()? as usize, w["input"]["kind"].as_u64()? as u8)),
         "c20_u8_table" => Some(c20::run_u8_table(w["input"]["kind"].as_str()?, w["input"]["n"].as_u64()? as usize)),
         "c20_u8" => Some(c20::run_u8(w["input"]["kind"].as_str()?, w["input"]["n"].as_u64()? as usize)),
@@ -63,7 +65,8 @@ fn rerun(w: &Value) -> Option<Outcome> {
 
 fn search(unit: &str, tag: &str, tier: &str) -> Option<Value> {
     match unit {
-        "c19_queries" | "c19_cols" | "c19_wrap" => c19::search(tag, tier),
+        "c19_queries" | "c19_cols" | "c19_wrap" | "c19_feed" => c19::search(tag, tier),
+        "c09_ids" => c09::search(tier),
         "c02_weakly" | "c02_merge" => c02::search(tag, tier),
         "c04_pager" | "c02_itemset" => if tag.starts_with("C15") { c15::search(tag, tier) } else if tag.starts_with("C16") { c16::search(tag, tier).or_else(|| c04::search(tag, tier)) } else { c04::search(tag, tier).or_else(|| c02::search(tag, tier)) },
         "c16_gc" | "c20_states" if tag.starts_with("C16") => c16::search(tag, tier),
